@@ -534,6 +534,87 @@ theorem tde_hdr_scalar (enc : Enc) (toks : List TTok) (i : Nat) (n : Bytes) (bod
   | prop t => simp [Ty.isPlainScalar] at hp
   | st fs => simp [Ty.isPlainScalar] at hp
 
+/-! ### `any` on scalars and arrays; benign mismatches -/
+
+theorem tShape_any_arr (enc : Enc) {toks : List TTok} {i e : Nat} {m : Bool} (h : toks[i]? = some (.arr e m))
+    (b : Bool) (o : Op) : tShape enc toks shapeFuel .any (vkOf b o i) = .ok (.seq (i + 1) e) := by
+  cases b <;> simp [vkOf, shapeFuel, tShape, readArray, tokAt, h]
+
+theorem tShape_any_obj (enc : Enc) {toks : List TTok} {i e : Nat} {m : Bool} (h : toks[i]? = some (.obj e m))
+    (b : Bool) (o : Op) : tShape enc toks shapeFuel .any (vkOf b o i) = .ok (.map (i + 1) e) := by
+  cases b <;> simp [vkOf, shapeFuel, tShape, tokAt, h]
+
+theorem tShape_map_leaf (enc : Enc) {toks : List TTok} {i : Nat} {l : Leaf} (h : toks[i]? = some l.ttok)
+    (b : Bool) (o : Op) : ∃ s bo, tShape enc toks shapeFuel .map (vkOf b o i) = .ok (.str s bo) := by
+  rcases ttok_cases l with hl | hl <;> rw [hl] at h <;>
+    cases b <;> simp [vkOf, shapeFuel, tShape, tokAt, h]
+
+theorem tsize_le_of_mem : ∀ (vs : List Node) (v : Node), v ∈ vs → tsize v ≤ nodesTsize vs
+  | [], v, hm => by simp at hm
+  | v0 :: r, v, hm => by
+      simp only [List.mem_cons] at hm
+      simp only [nodesTsize]
+      rcases hm with rfl | hm
+      · omega
+      · have := tsize_le_of_mem r v hm; omega
+
+theorem sits_emptyArr {toks : List TTok} {i : Nat} (h : SitsAt toks i (tapeNode i (.arr []))) :
+    toks[i]? = some (.arr (i + 1) false) ∧ toks[i + 1]? = some (.end_ i) := by
+  simp only [tapeNode, tapeNodes, List.length_nil, Nat.add_zero, List.nil_append] at h
+  obtain ⟨h0, h1⟩ := sitsAt_cons.mp h
+  exact ⟨h0, (sitsAt_cons.mp h1).1⟩
+
+/-- `AnyVisitor` on the tape path over a scalar / an array of scalars and arrays: the tree of the values -/
+theorem tAny_node (enc : Enc) (toks : List TTok) : ∀ (n : Nat) (v : Node) (i : Nat) (b : Bool) (o : Op),
+    v.anyOk = true → v.wf = true → SitsAt toks i (tapeNode i v) → tsize v ≤ n →
+    tAny enc toks n (vkOf b o i) = anyVal enc v := by
+  intro n
+  induction n with
+  | zero => intro v i b o _ _ _ h; have := tsize_pos v; omega
+  | succ n ih =>
+    intro v i b o hok hwf hsit hn
+    cases v with
+    | leaf l =>
+      have hh := sits_head hsit
+      simp only [tapeHead] at hh
+      rcases ttok_cases l with hl | hl <;> rw [hl] at hh <;>
+        cases b <;> simp [vkOf, tAny, tShape, shapeFuel, tokAt, hh, anyVal]
+    | obj fs => simp [Node.anyOk] at hok
+    | hdr h body => simp [Node.anyOk] at hok
+    | arr vs =>
+      simp only [Node.anyOk] at hok
+      obtain ⟨h0, h1⟩ := sits_arr hsit
+      have hwn : wfNodes vs = true := by simpa [Node.wf] using hwf
+      have hlen := sits_len hsit
+      have hvl := nodesTsize_len (expandNodes vs)
+      have hsz := nodesTsize_expand vs hwn
+      rw [← tapeNodes_expand vs (i + 1) hwn] at h1
+      have := tSeqFold_nodesN toks (tAny enc toks n) (anyVal enc) (i + 1 + nodesTsize vs) (expandNodes vs) (i + 1)
+        (toks.length + 1) h1 (by omega) (by simp only [tsize] at hlen; omega) (fun v hm => (expand_mem vs hwn v hm).2)
+        (fun v hm i' hs' => by
+          have := ih v i' false .eq (anyOks_expand vs hok v hm) (expand_mem vs hwn v hm).1 hs'
+            (by have := tsize_le_of_mem _ v hm; simp only [tsize] at hn; omega)
+          simpa [vkOf] using this)
+      simp only [tAny, tShape_any_arr enc h0, this, anyVal, anyVals_expand]
+
+theorem tde_leaf_on_cont (enc : Enc) (toks : List TTok) (f : Nat) (ty : Ty) (h : Ty.isTypedLeaf ty = true)
+    (i : Nat) (b : Bool) (o : Op) (tok : TTok) (ht : toks[i]? = some tok)
+    (hc : (∃ e m, tok = .arr e m) ∨ (∃ e m, tok = .obj e m))
+    (sh : TShape) (hsh : tShape enc toks shapeFuel .any (vkOf b o i) = .ok sh) (hnstr : ∀ s bo, sh ≠ .str s bo) :
+    tde enc toks (f + 1) ty (vkOf b o i) = .error .type := by
+  have hrs : vkReadScalar toks (vkOf b o i) = .ok none := by
+    rcases hc with ⟨e, m, rfl⟩ | ⟨e, m, rfl⟩ <;> cases b <;> simp [vkOf, vkReadScalar, tokAt, ht, TTok.asScalar]
+  have hrstr : vkReadStr enc toks (vkOf b o i) = .ok none := by
+    rcases hc with ⟨e, m, rfl⟩ | ⟨e, m, rfl⟩ <;> cases b <;> simp [vkOf, vkReadStr, tokAt, ht, TTok.asScalar]
+  have hstr : tStr enc toks (vkOf b o i) = .error .type := by
+    cases sh with
+    | str s bo => exact absurd rfl (hnstr s bo)
+    | seq s e => simp only [tStr, hrstr, hsh]
+    | map s e => simp only [tStr, hrstr, hsh]
+  rcases typedLeaf_cases ty h with rfl | rfl | rfl | rfl | rfl | rfl | rfl | rfl
+  case inr.inr.inr.inr.inr.inr.inr => simp only [tde, hstr]; rfl
+  all_goals simp only [tde, tLeaf, hrs, Option.bind, hsh]
+
 /-- tape path on the tokens of one value: the spec's value -/
 theorem tde_node (enc : Enc) (toks : List TTok) : ∀ (f : Nat) (ty : Ty) (b : Bool) (o : Op) (v : Node) (i : Nat),
     FitsT enc b ty v → v.wf = true → SitsAt toks i (tapeNode i v) → ty.height < f → (b = false → o = .eq) →
@@ -614,6 +695,44 @@ theorem tde_node (enc : Enc) (toks : List TTok) : ∀ (f : Nat) (ty : Ty) (b : B
             simpa [vkOf] using this)
         simp only [tShape_map_obj enc h0, this]
         cases structVals enc fs (valueOfN enc f) (fd :: fs') [] <;> rfl
+    | @anyArr _ vs hok =>
+      have hlen := sits_len hsit
+      simp only [tde, valueOfN]
+      exact tAny_node enc toks _ (.arr vs) i b o (by simpa [Node.anyOk] using hok) hwf hsit (by omega)
+    | @emptyMap _ t =>
+      obtain ⟨h0, h1⟩ := sits_emptyArr hsit
+      rw [tde, valueOfN]
+      simp only [tShape_map_arr enc h0]
+      rw [tMapFold_nil toks _ (toks.length + 1) (i + 1) [] (endOk_emptyArr h1 h0)]
+      rfl
+    | @emptySt _ fs =>
+      obtain ⟨h0, h1⟩ := sits_emptyArr hsit
+      rw [tde, valueOfN]
+      simp only [tShape_map_arr enc h0]
+      rw [tMapFold_nil toks _ (toks.length + 1) (i + 1) [] (endOk_emptyArr h1 h0)]
+    | @leafOnObj _ ty dfs hty =>
+      rw [valueOfN_leaf_on_cont enc f ty hty o _ (Or.inl ⟨dfs, rfl⟩)]
+      cases dfs with
+      | nil =>
+        obtain ⟨h0, _⟩ := sits_emptyObj hsit
+        exact tde_leaf_on_cont enc toks f ty hty i b o _ h0 (Or.inl ⟨_, _, rfl⟩) _ (tShape_any_arr enc h0 b o) (fun _ _ h => by cases h)
+      | cons fd fs' =>
+        obtain ⟨h0, _, _⟩ := sits_obj hsit
+        exact tde_leaf_on_cont enc toks f ty hty i b o _ h0 (Or.inr ⟨_, _, rfl⟩) _ (tShape_any_obj enc h0 b o) (fun _ _ h => by cases h)
+    | @leafOnArr _ ty vs hty =>
+      rw [valueOfN_leaf_on_cont enc f ty hty o _ (Or.inr ⟨vs, rfl⟩)]
+      obtain ⟨h0, _⟩ := sits_arr hsit
+      exact tde_leaf_on_cont enc toks f ty hty i b o _ h0 (Or.inl ⟨_, _, rfl⟩) _ (tShape_any_arr enc h0 b o) (fun _ _ h => by cases h)
+    | @mapOnLeaf _ t l =>
+      have hh := sits_head hsit
+      simp only [tapeHead] at hh
+      obtain ⟨s, bo, hs⟩ := tShape_map_leaf enc hh b o
+      simp only [tde, hs, valueOfN]
+    | @stOnLeaf _ fs l =>
+      have hh := sits_head hsit
+      simp only [tapeHead] at hh
+      obtain ⟨s, bo, hs⟩ := tShape_map_leaf enc hh b o
+      simp only [tde, hs, valueOfN]
 
 end Jomini.TextDe
 
@@ -630,6 +749,7 @@ theorem deTape_eq_valueOf (enc : Enc) (ty : Ty) (d : Doc) (hroot : Ty.isRoot ty 
   cases hfit with
   | ign => simp [deTape, valueOf]
   | @opt _ t _ h => simp [deTape, valueOf]
+  | leafOnObj hty => cases ty <;> simp [Ty.isRoot, Ty.isTypedLeaf] at hroot hty
   | @map _ t _ hall =>
     have := tMapFold_mapN enc t (tapeOf d) (Ty.height (.map t)) (tapeOf d).length (endOk_root _) d 0 []
       ((tapeOf d).length + 2) hsit (by omega) (by omega) hwf
@@ -660,6 +780,13 @@ theorem fitsT_fits (enc : Enc) : ∀ {b : Bool} {ty : Ty} {v : Node}, FitsT enc 
   | _, _, _, .seq h => .seq (fun v hv => fitsT_fits enc (h v hv))
   | _, _, _, .map h => .map (fun k o v hm => fitsT_fits enc (h k o v hm))
   | _, _, _, .st h => .st (fun k o v hm i t hl => fitsT_fits enc (h k o v hm i t hl))
+  | _, _, _, .anyArr h => .anyArr h
+  | _, _, _, .emptyMap => .emptyMap
+  | _, _, _, .emptySt => .emptySt
+  | _, _, _, .leafOnObj h => .leafOnObj h
+  | _, _, _, .leafOnArr h => .leafOnArr h
+  | _, _, _, .mapOnLeaf => .mapOnLeaf
+  | _, _, _, .stOnLeaf => .stOnLeaf
 
 /-- both parse paths yield the same result -/
 theorem deTape_eq_deStream (enc : Enc) (ty : Ty) (d : Doc) (hroot : Ty.isRoot ty = true)
